@@ -4,7 +4,7 @@
                the listing node as parent; the reachable part is a well-founded tree; the root has no parent. *)
 From Coq Require Import List ZArith QArith Bool.
 Import ListNotations.
-Require Import QV.C09.Model QV.C09.Corr QV.C09.Proofs QV.C09.Proofs2 QV.C09.Proofs3.
+Require Import QV.C09.Model QV.C09.Corr QV.C09.Proofs QV.C09.Proofs2 QV.C09.Proofs3 QV.C09.Proofs4.
 
 (* every freshly constructed tree (Loop(...) with nested children, any counts / waveforms / measurements) satisfies Inv *)
 Theorem C09_init : forall t, sInv (init_state t).
@@ -56,16 +56,39 @@ Theorem C09_copy_append_preserves : forall h0 r d x np h' res,
 Proof. intros h0 r d x np h' res. apply append_fresh_inv. apply copy_fresh. Qed.
 Print Assumptions C09_copy_append_preserves.
 
-(* one step / any finite history over the operations proved so far (append_child of a fresh tree or of a copy, waveform
-   setter, both repetition setters, duration / body_duration queries, ==, no-op), arbitrary target paths and arguments *)
+(* x[idx] = <fresh tree> for any integer idx (negative and out-of-range included: the IndexError path leaves the tree
+   untouched), after repair c876dc9: the recorded position is the normalised index *)
+Theorem C09_setitem_int_preserves : forall h0 r x idx t h' res,
+  Inv h0 r -> reach h0 r x -> (c <- build t ;; loop_setitem_int x idx c) h0 = (h', res) -> ok_result res -> Inv h' r.
+Proof. intros h0 r x idx t h' res. apply setitem_int_fresh_inv. apply build_fresh. Qed.
+Print Assumptions C09_setitem_int_preserves.
+
+(* replacing the children list of a live node x by kept old children (possibly renumbered) and roots of fresh trees,
+   every listed child recording parent x and its index: everything of Inv holds except the caches of x and its
+   ancestors (which the reset walk then clears, C09_reset_walk_restores).  The lemma every structural operation reduces to. *)
+Theorem C09_regraft : forall h0 h2 r x nx new fresh M,
+  Inv h0 r -> reach h0 r x -> get h0 x = Some nx ->
+  (forall c, In c fresh -> exists lo hi, (length h0 <= lo)%nat /\ (hi <= M)%nat /\ Sub h2 lo hi c) ->
+  get h2 x = Some (set_children new nx) ->
+  (forall c', In c' new -> In c' (children nx) \/ In c' fresh) ->
+  (forall i c', nth_error new i = Some c' ->
+     exists n2, get h2 c' = Some n2 /\ parent n2 = Some x /\ pidx n2 = Some (Z.of_nat i)) ->
+  (forall y, (y < length h0)%nat -> y <> x -> ~ In y new -> get h2 y = get h0 y) ->
+  (forall y n0, In y new -> In y (children nx) -> get h0 y = Some n0 -> exists pi, get h2 y = Some (set_pidx pi n0)) ->
+  InvExc h2 r (fun y => reach h2 y x).
+Proof. exact regraft_inv. Qed.
+Print Assumptions C09_regraft.
+
+(* one step / any finite history over the operations proved so far (append_child of a fresh tree or of a copy,
+   __setitem__ with an integer index, waveform setter, both repetition setters, duration / body_duration queries, ==, no-op), arbitrary target paths and arguments *)
 Theorem C09_step_partial : forall s o s' out,
-  sInv s -> proved_op' o = true -> step s o = (s', out) -> out_ok out -> sInv s'.
-Proof. exact step_partial'. Qed.
+  sInv s -> proved_op'' o = true -> step s o = (s', out) -> out_ok out -> sInv s'.
+Proof. exact step_partial''. Qed.
 Print Assumptions C09_step_partial.
 
 Theorem C09_history_partial : forall ops s,
-  sInv s -> forallb proved_op' ops = true -> run_ok s ops -> sInv (run s ops).
-Proof. exact history_partial'. Qed.
+  sInv s -> forallb proved_op'' ops = true -> run_ok s ops -> sInv (run s ops).
+Proof. exact history_partial''. Qed.
 Print Assumptions C09_history_partial.
 
 (* Loop.__eq__ depends on children lists, repetition definitions, waveforms and measurements only: two heaps that agree
